@@ -116,6 +116,24 @@ def canon_atom(t):
             return ('const', bool(t[1])), neg
         if tag in ('tuple', 'list') :
             return ('const', len(t[1]) > 0), neg
+        # every spelling of "is it empty?" is one atom: X.size == 0 / len(X) == 0 (sizes are non-negative integers)
+        if (tag == 'attr' and t[2] == 'size') or (tag == 'call' and T.dotted(t[1]) == 'len' and len(t[2]) == 1 and not t[3]):
+            return ('cmp', '==', t, ('const', 0)), not neg
+        if tag == 'cmp' and t[1] in ('>', '<', '>=', '<=', '!=') and ((t[2][0] == 'const' and isinstance(t[2][1], int) and not isinstance(t[2][1], bool)) or
+                                                                   (t[3][0] == 'const' and isinstance(t[3][1], int) and not isinstance(t[3][1], bool))):
+            def _sized(x):
+                return (x[0] == 'attr' and x[2] == 'size') or (x[0] == 'call' and T.dotted(x[1]) == 'len' and len(x[2]) == 1 and not x[3])
+            op, a, b = t[1], t[2], t[3]
+            if _sized(b) and a[0] == 'const':            # c op size  ->  size op' c
+                op = {'>': '<', '<': '>', '>=': '<=', '<=': '>=', '!=': '!='}[op]
+                a, b = b, a
+            if _sized(a) and b[0] == 'const':
+                c = b[1]
+                empty = ('cmp', '==', a, ('const', 0))
+                if (op, c) in (('>', 0), ('>=', 1), ('!=', 0)):
+                    return empty, not neg
+                if (op, c) in (('<', 1), ('<=', 0)):
+                    return empty, neg
         if tag == 'cmp':
             op, a, b = t[1], t[2], t[3]
             if op == 'is not':
@@ -836,6 +854,33 @@ class Evaluator(object):
     def st_Continue(self, node, st):
         return [('continue', st)]
 
+    def _old_keyword_names(self, f, kws):
+        """keyword arguments of a call of a repository function whose parameters have been renamed since the rules were written are given under the old
+        names (see rules.renamed_params): rules keep reading T.kw(call, '<old name>')"""
+        if not kws or not any(k != '**' for k, _ in kws):
+            return kws
+        target = None
+        try:
+            if f[0] == 'name':
+                target = self.fi.module.functions.get(f[1])
+                if target is None:
+                    r = self.P.resolve_name(self.fi.module, f[1])
+                    if r is not None and r[0] == 'func':
+                        target = r[1]
+            elif f[0] == 'attr' and f[1] == ('param', 'self') and self.fi.cls is not None:
+                m = self.P.lookup(self.fi.cls, f[2])
+                if m is not None and m.kind == 'func':
+                    target = m.value
+        except Exception:
+            target = None
+        if target is None:
+            return kws
+        from .rules import renamed_params
+        ren = renamed_params(target)
+        if not ren:
+            return kws
+        return [(ren.get(k, k), v) for k, v in kws]
+
     def _repo_function_names(self):
         names = getattr(self.P, '_short_function_names', None)
         if names is None:
@@ -887,7 +932,8 @@ class Evaluator(object):
     def _subscript(self, o, i):
         # f(...)[k] of a repository function is the k-th item of its result: the same term as the k-th target of `a, b = f(...)`
         if o[0] == 'call' and i[0] == 'const' and isinstance(i[1], int) and not isinstance(i[1], bool) and i[1] >= 0 \
-                and T.call_name(o) in self._repo_function_names():
+                and T.dotted(o[1]) not in ('tuple', 'list', 'sorted', 'reversed', 'set', 'dict', 'range', 'np.asarray', 'np.array', 'np.asanyarray', 'np.atleast_1d',
+                                           'np.ravel', 'np.sort', 'np.argsort', 'np.arange', 'np.diff', 'np.concatenate'):       # (these yield a sequence of data, not a tuple of results)
             return ('item', o, i[1])
         if o[0] in ('tuple', 'list') and i[0] == 'const' and isinstance(i[1], int) \
                 and not any(x[0] == 'star' for x in o[1]) and -len(o[1]) <= i[1] < len(o[1]):
@@ -1138,6 +1184,7 @@ class Evaluator(object):
                     xargs.extend(a[1][1])
                 else:
                     xargs.append(a)
+            kws = self._old_keyword_names(f, kws)
             call = ('call', f, tuple(xargs), tuple(kws))
             out.extend(self._do_call(call, node, s))
         return out
